@@ -217,7 +217,9 @@ func (c *Chain) normalise(e *Ev) {
 			}
 		}
 		if e.Name == "ModCreate" {
-			e.Module = ModName
+			if e.Module == "" {
+				e.Module = ModName
+			}
 			if e.State == "" {
 				e.State = "running"
 			}
@@ -276,7 +278,7 @@ func (c *Chain) Apply(e *Ev) bool {
 		out = c.run(func(ctx sdk.Context) error {
 			_, err := c.K.CreateRequestContext(ctx, e.Svc, c.addrs(e.Provs), c.A(e.Signer), e.Input,
 				coinsOf(e.CapShape, e.Cap), e.Timeout, e.Super, e.Rep, uint64(e.Freq), e.Total,
-				ctxState(e.State), uint32(e.Thr), ModName)
+				ctxState(e.State), uint32(e.Thr), e.Module)
 			return err
 		})
 		if out.OK {
